@@ -1,4 +1,4 @@
-import ExprModel.Types.Checker
+import ExprModel.Types.HasType
 /- driver handlers for the type / name-resolution model (C16) -/
 namespace ExprModel.Drv
 open ExprModel
@@ -104,6 +104,8 @@ def tdefectsOfAtom : String → Option TDefects
   | "asis" => some .asIs
   | "aswas" => some .asWas
   | "repaired" => some .repaired
+  | "safefix" => some .safeFix
+  | "safefix2" => some .safeFix2
   | _ => none
 
 def expectOfAtom : String → Option Expect
@@ -125,7 +127,8 @@ def locToSexp (l : Loc) : List Sexp := [Sexp.nat l.line, Sexp.nat l.col]
 /-- `(c03-check <asis|aswas|repaired> <env> <strict> <expect> <node>)` -/
 def handleCheck : List Sexp → Sexp
   | [.atom "c03-check", .atom d, e, strict, .atom ex, n] =>
-    match defectsOfAtom d, tdefectsOfAtom d, envOfSexp e, strict.asBool, expectOfAtom ex, Node.ofSexp n with
+    match defectsOfAtom (if d == "safefix" || d == "safefix2" then "asis" else d), tdefectsOfAtom d, envOfSexp e, strict.asBool,
+        expectOfAtom ex, Node.ofSexp n with
     | some (dn, _), some dt, some e, some strict, some ex, some n =>
       match check (cfgOfEnv dn dt e strict ex) n with
       | .ok n' t => .list [.atom "ok", Ty.optToSexp t, n'.toSexp]
@@ -135,8 +138,26 @@ def handleCheck : List Sexp → Sexp
     | _, _, _, _, _, _ => bad
   | _ => bad
 
+/-- `(c03-ref <env> <node>)`: the verdict of the reference typing rules (`synth` with the documented
+rule set) — the Spec side of the oracle for ill-typed mutants -/
+def handleRef : List Sexp → Sexp
+  | [.atom "c03-ref", e, n] =>
+    match envOfSexp e, Node.ofSexp n with
+    | some e, some n =>
+      let cfg := cfgOfEnv .asIs .repaired e true .none
+      match synth cfg [] n with
+      | some t => .list [.atom "well", Ty.optToSexp t, Sexp.bool (staticNode cfg [] n)]
+      | none =>
+        -- which rule rejects it: the error the checker with the documented rule set reports
+        match check cfg n with
+        | .error _ c _ => .list [.atom "ill", .atom c.name]
+        | _ => .list [.atom "ill", .atom "panic"]
+    | _, _ => bad
+  | _ => bad
+
 def typesHandlers : List (String × (List Sexp → Sexp)) :=
   [("c16-table", handleTypes), ("c16-fields", handleTypes), ("c16-mset", handleTypes),
-   ("c16-names", handleTypes), ("c16-member", handleTypes), ("c03-check", handleCheck)]
+   ("c16-names", handleTypes), ("c16-member", handleTypes), ("c03-check", handleCheck),
+   ("c03-ref", handleRef)]
 
 end ExprModel.Drv
